@@ -222,6 +222,21 @@ theorem call_count_eq_page_count (r0 : Req ρ) (p0 : Page ι) (srv : List (Page 
   have : 0 < (takeThrough (p0 :: srv)).length := List.length_pos_iff.mpr this
   omega
 
+/-- **Token VALUES carry no meaning**: no theorem above assumes the tokens of a history distinct.  In
+particular a page that carries the same (non-empty) token as the page before it — or as the caller's own
+`page_token` (`r0.token` is arbitrary) — does not end the listing: both pages and everything up to the
+first EMPTY token are yielded, one request per page. -/
+theorem repeated_token_does_not_stop (r0 : Req ρ) (p q : Page ι) (rest : List (Page ι))
+    (hp : p.token ≠ []) (hq : q.token = p.token) :
+    (run r0 (p :: q :: rest)).1 = p.items ++ q.items ++ (takeThrough rest).flatMap (·.items) ∧
+    (run r0 (p :: q :: rest)).2.length = 2 + (takeThrough rest).length := by
+  have hq' : q.token ≠ [] := hq ▸ hp
+  have hT : takeThrough (p :: q :: rest) = p :: q :: takeThrough rest := by
+    cases rest <;> simp [takeThrough, hp, hq']
+  constructor
+  · rw [items_all_once_in_order, hT]; simp
+  · rw [call_count_eq_page_count, hT]; simp; omega
+
 /-- **Attributes of the pager are those of the most recent page**: after iteration, `_response`
 is the last page yielded. -/
 theorem attrs_are_last_page (st : PState ι ρ) (srv : List (Page ι)) :
@@ -503,5 +518,13 @@ example : ({ World.init (ι := Nat) (ρ := Unit) ⟨[], ()⟩ ⟨[7], ['t']⟩ [
 /-- `wrap_agrees_with_client_output_partial`: a plain paged unary method meets the hypotheses -/
 example : ¬ ((⟨false, false, false, false, false⟩ : MethodKind).extLro = true ∧ true = true) ∧
     ((⟨false, false, false, false, false⟩ : MethodKind).void = true → False) := by decide
+
+/-- `repeated_token_does_not_stop`: the history of seeded change seed10_C07 — `[b1,b2]/"cur-2"`, `[]/"cur-2"`, `[b3]/""` —
+listed by a caller who resumes with that very token: all three items, three requests, the token sent twice more -/
+example : (run (ρ := Unit) ⟨"cur-2".toList, ()⟩
+    [⟨[1, 2], "cur-2".toList⟩, ⟨[], "cur-2".toList⟩, ⟨[3], []⟩]) =
+    ([1, 2, 3], [⟨"cur-2".toList, ()⟩, ⟨"cur-2".toList, ()⟩, ⟨"cur-2".toList, ()⟩]) := by decide
+example : (⟨[1, 2], "cur-2".toList⟩ : Page Nat).token ≠ [] ∧
+    (⟨[], "cur-2".toList⟩ : Page Nat).token = (⟨[1, 2], "cur-2".toList⟩ : Page Nat).token := by decide
 
 end GapicModel.Props.C07
